@@ -150,6 +150,17 @@ func genConfig(tp *simcore.Tape, enumerate bool) *config {
 	}
 	c.preClose = tp.Bool(1, 3)
 	closeUsed := false
+	if !c.pinnedOnly && tp.Bool(1, 5) {
+		// focused mix: a retention pass over expired segments against a multi-segment query (a select that meets a flagged
+		// segment after it pinned newer ones must give those back)
+		if c.nSegs < 3 {
+			c.nSegs = 3
+			c.touched = append(c.touched, false, false)[:3]
+		}
+		c.ttlDays = 1
+		c.programs = append(c.programs, []opSpec{{kind: opRetention}}, []opSpec{{kind: opSelR, lo: 0, hi: c.nSegs - 1}, {kind: opSelR, lo: 0, hi: c.nSegs - 1}})
+		nActors -= 2
+	}
 	for a := 0; a < nActors; a++ {
 		n := tp.Range(1, maxOps)
 		var prog []opSpec
@@ -447,6 +458,8 @@ func (s *sim) check(where string, parked []*simcore.Parked) {
 		}
 		if m.holders > 0 && !s.closing {
 			switch {
+			case !dir && !m.superseded && !st.MustBeDeleted && s.lateDeleteOfPredecessor(where, m):
+				return
 			case !dir && !m.superseded:
 				s.violate("in-use", s.class("deleted-while-held"), "%s: segment %s has %d holder(s) but its directory %s is gone (refCount=%d flagged=%v)%s",
 					where, m.name, m.holders, filepath.Base(m.loc), st.RefCount, st.MustBeDeleted, s.softNote())
@@ -479,6 +492,9 @@ func (s *sim) check(where string, parked []*simcore.Parked) {
 		}
 		if !dir && !m.gone {
 			if !m.flagged {
+				if s.lateDeleteOfPredecessor(where, m) {
+					return
+				}
 				s.violate("deletion", "unflagged-directory-removed", "%s: directory of segment %s disappeared although it was never selected for deletion", where, m.name)
 				return
 			}
@@ -501,6 +517,20 @@ func (s *sim) check(where string, parked []*simcore.Parked) {
 			return
 		}
 	}
+}
+
+// lateDeleteOfPredecessor reports the removal of an unflagged segment's directory when an earlier segment object of
+// the same location was selected for deletion: a delete of the predecessor ran (again) after the successor was created.
+func (s *sim) lateDeleteOfPredecessor(where string, m *segM) bool {
+	for _, o := range s.segs {
+		if o != m && o.loc == m.loc && o.flagged {
+			s.violate("deletion", "successor-directory-removed-by-late-delete-of-predecessor", "%s: the directory %s of segment %s (never selected for deletion, %d holder(s)) is gone: "+
+				"it was created after segment %s of the same time range had been deleted, and a second performDelete of %s (DecRef's last-reference path racing delete()) removed it",
+				where, filepath.Base(m.loc), m.name, m.holders, o.name, o.name)
+			return true
+		}
+	}
+	return false
 }
 
 // class names the violation: everything that follows an unpinned DecRef is one family (one root cause), anything
@@ -845,6 +875,15 @@ func (s *sim) startActor(a *actor) {
 			if a.cur == "create" && strings.Contains(fmt.Sprint(r), "exist") {
 				s.violate("no-panic", "create-panics-on-directory-of-deleted-segment-still-held", "%s: CreateSegmentIfNotExist panicked (%v): the segment of that day was selected for deletion "+
 					"but is still held, so it left the controller's list while its directory stays until the last DecRef", a.name, r)
+				return
+			}
+			s.mu.Lock()
+			stolen := s.evPeek || s.evScan
+			cls := s.class("actor-panic")
+			s.mu.Unlock()
+			if stolen {
+				// e.g. a snapshot whose internal reference was released by somebody else's unpinned DecRef loses its index to the idle reclaimer
+				s.violate("in-use", cls, "%s panicked while doing %q: %v", a.name, a.cur, r)
 				return
 			}
 			s.violate("no-panic", "actor-panic:"+a.cur, "%s panicked while doing %q: %v", a.name, a.cur, r)
